@@ -80,6 +80,9 @@ type config struct {
 	Sum     string            `json:"sum"` // none | garbage | empty
 	Entries []string          `json:"entries"`
 	Multi   bool              `json:"multi"` // nested + sibling modules imported through replace
+	// Cwd: the directory (relative to the module root) the run is started from - "" the root, "a" the first
+	// entrypoint's own directory (as go generate does); the entrypoints are then given relative to it
+	Cwd string `json:"cwd,omitempty"`
 }
 
 func genConfig(r *rand.Rand) config {
@@ -97,6 +100,9 @@ func genConfig(r *rand.Rand) config {
 		cfg.Gens = append(cfg.Gens, gs)
 	}
 	cfg.Multi = r.Intn(3) == 0
+	if r.Intn(3) == 0 {
+		cfg.Cwd = "a"
+	}
 	cfg.Entries = []string{"./a"}
 	if r.Intn(4) == 0 {
 		cfg.Entries = []string{"./a", "./b/nested"}
@@ -320,7 +326,7 @@ func judge(cfg config, ps []layout.Pkg, before, after map[string]fixture.Entry, 
 
 func (cfg config) fingerprint() string {
 	var b strings.Builder
-	fmt.Fprintf(&b, "%s|%v|%v|%v|%s|", cfg.Base, cfg.All, cfg.Root, cfg.Stale, cfg.Sum)
+	fmt.Fprintf(&b, "%s|%v|%v|%v|%s|%s|", cfg.Base, cfg.All, cfg.Root, cfg.Stale, cfg.Sum, cfg.Cwd)
 	for _, g := range cfg.Gens {
 		var ks []string
 		for k, v := range g.Pkg {
@@ -398,11 +404,27 @@ func (p *prop) runConfig(c core.Case, w *core.Worker, res *core.Result, cfg conf
 	ps := build(m, cfg)
 	before := m.Snapshot()
 	args := specgen.Args{Entrypoint: cfg.Entries, OutputFileBaseName: cfg.Base, All: cfg.All}
+	runDir := m.Root
+	if cfg.Cwd != "" {
+		runDir = filepath.Join(m.Root, cfg.Cwd)
+		var rel []string
+		for _, e := range cfg.Entries {
+			r, err := filepath.Rel(cfg.Cwd, strings.TrimPrefix(e, "./"))
+			if err != nil {
+				r = e
+			}
+			if !strings.HasPrefix(r, ".") {
+				r = "./" + r
+			}
+			rel = append(rel, r)
+		}
+		args.Entrypoint = rel
+	}
 	var run specgen.Result
 	straceLog := ""
 	if strace {
 		logFile := filepath.Join(w.Scratch, fmt.Sprintf("strace-%d-%d.log", c.ID, idx))
-		run = specgen.RunChild(w.Scratch, specgen.RunSpec{Dir: m.Root, Args: args, Gens: cfg.Gens}, "strace", "-f", "-qq", "-o", logFile, "-e", "trace=open,openat,creat,unlink,unlinkat,rename,renameat,renameat2,truncate,ftruncate,mkdir,mkdirat,rmdir,link,linkat,symlink,symlinkat,chmod,fchmodat")
+		run = specgen.RunChild(w.Scratch, specgen.RunSpec{Dir: runDir, Args: args, Gens: cfg.Gens}, "strace", "-f", "-qq", "-o", logFile, "-e", "trace=open,openat,creat,unlink,unlinkat,rename,renameat,renameat2,truncate,ftruncate,mkdir,mkdirat,rmdir,link,linkat,symlink,symlinkat,chmod,fchmodat")
 		b, _ := os.ReadFile(logFile)
 		straceLog = string(b)
 		_ = os.Remove(logFile)
@@ -414,7 +436,7 @@ func (p *prop) runConfig(c core.Case, w *core.Worker, res *core.Result, cfg conf
 		// inotify on every directory of the tree for the duration of the run: creations, deletions, renames and
 		// modifications of directory entries are recorded as they happen, transient files included
 		watcher, werr := fixture.Watch(m.Root)
-		run = specgen.RunInProcess(m.Root, args, cfg.Gens)
+		run = specgen.RunInProcess(runDir, args, cfg.Gens)
 		if werr == nil {
 			evs, overflow := watcher.Stop()
 			if overflow {
@@ -463,7 +485,7 @@ func (p *prop) runConfig(c core.Case, w *core.Worker, res *core.Result, cfg conf
 	after := m.Snapshot()
 	fails := judge(cfg, ps, before, after, m, run)
 	for _, f := range fails {
-		res.Fail(f[0], f[1], f[2]+fmt.Sprintf("\n(config: base=%s all=%v root=%v stale=%v sum=%s entries=%v)", cfg.Base, cfg.All, cfg.Root, cfg.Stale, cfg.Sum, cfg.Entries), cfg)
+		res.Fail(f[0], f[1], f[2]+fmt.Sprintf("\n(config: base=%s all=%v root=%v stale=%v sum=%s entries=%v cwd=%q)", cfg.Base, cfg.All, cfg.Root, cfg.Stale, cfg.Sum, cfg.Entries, cfg.Cwd), cfg)
 	}
 	res.Count("paths_snapshotted", int64(len(before)))
 	cr, ch, de := fixture.Diff(before, after)
